@@ -10,6 +10,7 @@ import (
 	"os/exec"
 	"path/filepath"
 	"runtime"
+	"runtime/pprof"
 	"sort"
 	"strconv"
 	"strings"
@@ -67,6 +68,8 @@ func main() {
 		os.Exit(cmdCheck(os.Args[2:]))
 	case "replay":
 		os.Exit(cmdReplay(os.Args[2:]))
+	case "selftest":
+		os.Exit(cmdSelftest())
 	default:
 		fmt.Fprintln(os.Stderr, "unknown command", os.Args[1])
 		os.Exit(2)
@@ -116,7 +119,13 @@ func cmdCheck(args []string) int {
 	only := fs.String("only", "", "run only this harness func")
 	noReplay := fs.Bool("noreplay", false, "skip native replay (debug)")
 	budget := fs.Int("budget", 0, "time budget in seconds (overrides spec)")
+	cpuprof := fs.String("cpuprofile", "", "write cpu profile")
 	fs.Parse(args)
+	if *cpuprof != "" {
+		f, _ := os.Create(*cpuprof)
+		pprof.StartCPUProfile(f)
+		defer pprof.StopCPUProfile()
+	}
 	if t := os.Getenv("VERIF_TIER"); t != "" && *tier == "" {
 		*tier = t
 	}
@@ -563,6 +572,19 @@ func writeEvidence(spec *Spec, tier string, seed int, all []*Results, known []Kn
 	if ev["assumptions"] == nil {
 		ev["assumptions"] = []string{}
 	}
+	cov := ev["coverage"].(map[string]interface{})
+	if spec.Outside == nil {
+		cov["outside_claim"] = []string{}
+	}
+	if spec.TrustedBase == nil {
+		cov["trusted_base"] = []string{}
+	}
+	if inconclusive == nil {
+		cov["inconclusive"] = []string{}
+	}
+	if kfs == nil {
+		cov["known_findings"] = []string{}
+	}
 	dir := filepath.Join(verifDir(), "evidence")
 	os.MkdirAll(dir, 0o755)
 	data, _ := json.MarshalIndent(ev, "", " ")
@@ -574,3 +596,48 @@ func round2(f float64) float64 {
 }
 
 var _ = ssa.InstantiateGenerics
+
+// cmdSelftest: sanity checks of the term layer against the solver (each
+// folding rule is compared with z3's verdict on random constants).
+func cmdSelftest() int {
+	tt := NewTermTable()
+	s := NewSolver()
+	defer s.Close()
+	s.BeginPath()
+	x := tt.Var("x", 8)
+	y := tt.Var("y", 8)
+	bad := 0
+	check := func(name string, t *Term, want SatResult) {
+		if r := s.Check(t); r != want {
+			fmt.Printf("selftest %s: got %v want %v\n", name, r, want)
+			bad++
+		}
+	}
+	check("sat", tt.Eq(x, tt.BV(7, 8)), Sat)
+	check("unsat", tt.And(tt.Eq(x, tt.BV(7, 8)), tt.Eq(x, tt.BV(8, 8))), Unsat)
+	check("ult", tt.And(tt.Cmp(OpUlt, x, y), tt.Cmp(OpUlt, y, x)), Unsat)
+	check("zext", tt.Not(tt.Eq(tt.ZExt(x, 32), tt.BvBin(OpBvAnd, tt.ZExt(x, 32), tt.BV(0xff, 32)))), Unsat)
+	check("sext", tt.And(tt.Cmp(OpSlt, x, tt.BV(0, 8)), tt.Cmp(OpSle, tt.BV(0, 32), tt.SExt(x, 32))), Unsat)
+	// constant folding vs solver on all binary ops
+	ops := []Op{OpBvAdd, OpBvSub, OpBvMul, OpBvUDiv, OpBvSDiv, OpBvURem, OpBvSRem, OpBvAnd, OpBvOr, OpBvXor, OpBvShl, OpBvLShr, OpBvAShr}
+	vals := []uint64{0, 1, 2, 7, 0x7f, 0x80, 0x81, 0xfe, 0xff}
+	for _, op := range ops {
+		for _, a := range vals {
+			for _, b := range vals {
+				folded := tt.BvBin(op, tt.BV(a, 8), tt.BV(b, 8))
+				symb := tt.mk(op, 8, x, y, nil, 0, "")
+				q := tt.And(tt.And(tt.Eq(x, tt.BV(a, 8)), tt.Eq(y, tt.BV(b, 8))), tt.Not(tt.Eq(symb, folded)))
+				if r := s.Check(q); r != Unsat {
+					fmt.Printf("selftest fold %s %d %d: folded=%d solver disagrees (%v)\n", opNames[op], a, b, folded.k, r)
+					bad++
+				}
+			}
+		}
+	}
+	s.EndPath()
+	if bad > 0 {
+		return 1
+	}
+	fmt.Println("selftest ok")
+	return 0
+}
